@@ -126,9 +126,11 @@ def c13(tier, seed):
     scases = step_cases(['mem'] if tier == 'quick' else ['mem', 'alt:/a'], 'USYM', ALL_OPS, ['C13'], tier, seed, dlens=[1])
     ck.add(run_cases(prog, onestep.run_step_case, scases), 'same in symbolic-name mode (names are solver variables incl. multi-byte characters; siblings may be prefixes of each other)')
     # (the 4-step scripts of the thorough tier run with dev arithmetic; release arithmetic at the 3-step size)
-    rc = [c_ for c_ in reader_cases(tier, 'C13') if not (c_['k'] >= 4 and c_['clen'] > 2)] + reader_cases('quick', 'C13', release=True)
+    # the reader/writer/async kernels run at the quick sizes here: their deep tiers are C14's and C15's thorough tiers, where
+    # every panic is reported as well; this check spends its thorough budget on configurations instead
+    rc = reader_cases('quick', 'C13') + reader_cases('quick', 'C13', release=True)
     ck.add(run_cases(prog, handles.run_reader_case, rc), 'reader scripts with any 64-bit offset, zero-length buffers; dev and release arithmetic')
-    ck.add(run_cases(prog, handles.run_writer_case, writer_cases(tier, 'C13')), 'writer sessions')
+    ck.add(run_cases(prog, handles.run_writer_case, writer_cases('quick', 'C13')), 'writer sessions')
     ck.add(run_cases(prog, handles.run_lifecycle_case, [{'cfg': c} for c in ['mem', 'alt', 'ovl_upper', 'ovl_lower']]), 'handles used after their file was removed')
     ck.add(run_cases(prog, handles.run_hostile_dir_case, [{'name': n_} for n_ in (b'\xff', b'a\xc3', b'ok', b'\xc3\xa9')] +
                      [{'name': b's', 'kind': 'socket'}, {'name': b'l', 'kind': 'dangling_link'}]),
@@ -141,7 +143,7 @@ def c13(tier, seed):
     ck.add(run_cases(prog, altroot.run_confine_case, mc), 'an altroot whose directory P does not exist (a filesystem without a root): no operation panics')
     # the pure path functions (join/parent/filename/extension) on symbolic strings: no input makes them panic
     from . import c06 as c06mod
-    la6, lb6 = (5, 5) if tier == 'quick' else (6, 6)
+    la6, lb6 = (5, 5) if tier == 'quick' else (6, 5)
     pk = []
     for la_ in range(la6 + 1):
         for lb_ in range(lb6 + 1):
@@ -155,7 +157,7 @@ def c13(tier, seed):
     u3 = UNIVERSES['U3']()
     tcalls = [(op, v) for op in C16_OPS for v in ('a', 'a_b')]
     tpairs = [[[c1], [c2]] for i, c1 in enumerate(tcalls) for c2 in tcalls[i:] if (c1[0] in C16_MUT or c2[0] in C16_MUT)]
-    tshapes = [(('a', 'd'), ('a_b', 'f')), (('a', 'd'), ('a_b', 'd')), (('a', 'f'),)] if tier == 'quick' else shapes(u3)
+    tshapes = [(('a', 'd'), ('a_b', 'f')), (('a', 'd'), ('a_b', 'd')), (('a', 'f'),)] if tier == 'quick' else shapes(u3)[::2]
     tcases = [{'cfg': 'mem', 'universe': 'U3', 'shape': sh, 'programs': pr, 'mode': 'linearizable', 'prop': 'C13', 'panic_only': True} for sh in tshapes for pr in tpairs]
     ck.add(run_cases(prog, threads.run_concurrent_case, tcases), 'two concurrent calls on overlapping MemoryFS paths, every interleaving at lock granularity: no schedule panics or deadlocks')
     # the async port: stepwise walks with a removal in between and the reader kernels (panics on either API are C13 findings)
@@ -164,7 +166,7 @@ def c13(tier, seed):
     wsh = [sh for sh in shapes(u3) if len(sh) >= 2]
     wcases = [{'universe': 'U3', 'config': c, 'state': sh} for c in (('mem',) if tier == 'quick' else ('mem', 'alt')) for sh in wsh]
     ck.add(run_cases(prog_a, twins.run_walk_case, wcases), 'async port: walk_dir streams consumed item by item with a removal in between (pending futures 0/1/2)')
-    acases = [{'clen': c_, 'k': 3 if (tier == 'quick' or c_ >= 2) else 4, 'first': f1, 'second': f2} for c_ in range(0, 3) for f1 in range(4) for f2 in range(4)]
+    acases = [{'clen': c_, 'k': 3, 'first': f1, 'second': f2} for c_ in range(0, 3) for f1 in range(4) for f2 in range(4)]
     ck.add(run_cases(prog_a, asynck.run_async_reader_case, acases), 'async port: reader kernels on symbolic scripts')
     ck.bounds = {'universe': 'U5 (+U8 thorough)', 'reader': 'content 0..3/4 bytes, scripts of 3/4 steps, any 64-bit offset', 'overlay': 'UO3, 2 layers, k<=2',
                  'threads': '2 threads x 1 call on /a, /a/b of %d trees, all schedules' % len(tshapes), 'async': 'walks over U3 trees with >= 2 entries; reader content 0..2 bytes',
